@@ -817,6 +817,10 @@ def check(prog: Program, res: Result) -> None:
     check_chunk_state(prog, res)
     check_model_config_alias(prog, res)
     check_rank(prog, res)
+    # "an initial configuration file equal to the configuration supplied": what the trainer verifies and saves is the supplied
+    # configuration plus schema defaults - verify_training_cfg / to_sleap_nn_cfg rewrite nothing (shared with C20-lossless)
+    from . import c20 as _c20
+    res.borrow(_c20.check_lossless, "C19-initial", prog)
     res.floor("C19-final", 3)
     res.assumptions += [
         "wandb's own files under save_dir are outside the analysis (the key reaches wandb only through wandb.login)",
